@@ -3,29 +3,21 @@ package main
 import (
 	"fmt"
 
-	"github.com/diskfs/go-diskfs/filesystem/squashfs"
+	"github.com/diskfs/go-diskfs/filesystem/iso9660"
 
 	"verif/harness/internal/fsx"
-	"verif/harness/internal/memdev"
+	"verif/harness/internal/rawiso"
 )
 
 func main() {
-	var es []fsx.Entry
-	for n := 40; n <= 75; n++ {
-		dn := fmt.Sprintf("k-%02d", n)
-		es = append(es, fsx.Entry{Path: dn, Dir: true})
-		for i := 0; i < n; i++ {
-			es = append(es, fsx.Entry{Path: dn + "/" + fmt.Sprintf("f%04d.txt", i), Data: []byte{byte(n), byte(i)}})
-		}
+	v, err := fsx.BuildImage("iso", []fsx.Entry{{Path: "a.txt", Data: fsx.Content(1, 700)}, {Path: "l1", Link: "a.txt"}, {Path: "l2", Link: "/abs/target/which/is/longer"}}, fsx.Opt{Size: 2 << 20, IsoOpts: &iso9660.FinalizeOptions{RockRidge: true}})
+	if err != nil {
+		panic(err)
 	}
-	for _, bs := range []int64{4096, 131072, 1 << 20} {
-		d := memdev.New(1 << 30)
-		v, err := fsx.BuildImageOn("squashfs", d, es, fsx.Opt{Size: 1 << 30, SquashBlock: bs, SquashOpts: &squashfs.FinalizeOptions{Compression: &squashfs.CompressorGzip{}}})
-		fmt.Println("bs", bs, "build err:", err)
-		if err != nil {
-			continue
-		}
-		w, err := fsx.Walk(v.FS, 1<<20)
-		fmt.Println("  walk entries", len(w), "err:", err)
+	iso, err := rawiso.ParseISO(v.Dev, 0, 2<<20, 2048)
+	fmt.Println(err)
+	for _, e := range iso.Entries {
+		fmt.Printf("%q dir=%v lba=%d size=%d\n", e.Path, e.IsDir, e.LBA, e.Size)
 	}
+	fmt.Println(iso.Problems)
 }
